@@ -69,7 +69,7 @@ ValOf(v) ==
       [] v.sh = "mixedpair" -> List([i \in 1..2 |->
                                  IF v.elems[i].sh = "bind" THEN [py |-> "str", of |-> v.elems[i], f |-> "asis"]
                                                            ELSE NumVal(v.elems[i])])
-      [] OTHER -> [py |-> "str", of |-> v, f |-> "asis"]   \* str char strpat enum bind expr regex: verbatim
+      [] OTHER -> [py |-> "str", of |-> v, f |-> "asis"]   \* str char strpat enum bind expr regex listexpr: verbatim
 
 KVDict(type, pairs) ==                \* keys lower-cased; duplicate key keeps last value, first position
     LET RECURSIVE F(_, _)
@@ -131,7 +131,7 @@ Apply(act) ==
 
 SlotsBy == [t \in SchemaTypes |-> {s \in Slots : s[1] = t}]
 
-ScalarShapes == {"str", "char", "strpat", "enum", "int", "float", "bool", "hex", "bind", "expr", "regex"}
+ScalarShapes == {"str", "char", "strpat", "enum", "int", "float", "bool", "hex", "bind", "expr", "regex", "listexpr"}
 ListShapes   == {"numlist2", "numlist3", "numlist4", "numlist6", "hexpair", "bindpair", "mixedpair"}
 
 Num(sh, id) == [sh |-> sh, id |-> id]
